@@ -3,6 +3,8 @@ package rules
 import (
 	"go/ast"
 	"go/token"
+	"sort"
+	"strings"
 
 	"jsverif/internal/core"
 )
@@ -102,4 +104,80 @@ func clampedBefore(stack []ast.Node, cnt string) bool {
 		return false
 	}
 	return false
+}
+
+// c16stale: the values cached by JSchemaError.preparation() are dropped when their source changes.
+func c16stale(c *core.Ctx) {
+	const R = "C16.stale"
+	c.Rule(R, "JSchemaError.preparation() caches values computed from e.file (every field it stores besides `prepared`) and is skipped while e.prepared is set; every method that assigns e.file therefore also resets e.prepared. Otherwise the renderer walks the new text with the length and newline symbol of the old one (String() after SetFile: index out of range)")
+	c.Floor(R, 2)
+	prep := c.P.FindDecl("(*kit.JSchemaError).preparation")
+	if prep == nil {
+		c.Unresolved(R, "(*kit.JSchemaError).preparation")
+		return
+	}
+	// the cached fields and their sources
+	cached := map[string]bool{}
+	fromFile := true
+	early := false
+	ast.Inspect(prep.Decl.Body, func(n ast.Node) bool {
+		switch n := n.(type) {
+		case *ast.IfStmt:
+			if core.ExprStr(n.Cond) == "e.prepared" && len(n.Body.List) == 1 {
+				if _, isRet := n.Body.List[0].(*ast.ReturnStmt); isRet {
+					early = true
+				}
+			}
+		case *ast.AssignStmt:
+			for i, l := range n.Lhs {
+				ls := core.ExprStr(l)
+				if strings.HasPrefix(ls, "e.") && ls != "e.prepared" {
+					cached[ls] = true
+					if i < len(n.Rhs) && !strings.Contains(core.ExprStr(n.Rhs[i]), "e.file") {
+						fromFile = false
+					}
+				}
+			}
+		}
+		return true
+	})
+	names := make([]string, 0, len(cached))
+	for k := range cached {
+		names = append(names, k)
+	}
+	sort.Strings(names)
+	c.Check(early && fromFile && len(cached) > 0, R, "(*kit.JSchemaError).preparation:cache", c.P.Pos(prep.Decl.Pos()),
+		"preparation() caches "+strings.Join(names, ", ")+" computed from e.file and returns early while e.prepared", "the cache protocol of preparation() is not the one this rule knows (prepared flag + values computed from e.file)")
+	for _, d := range c.P.FuncDecls() {
+		if core.Rel(d.Pkg.PkgPath) != "kit" || d.Decl.Recv == nil || d.Decl.Body == nil {
+			continue
+		}
+		if !strings.Contains(core.ExprStr(d.Decl.Recv.List[0].Type), "JSchemaError") || len(d.Decl.Recv.List[0].Names) == 0 {
+			continue
+		}
+		recv := d.Decl.Recv.List[0].Names[0].Name
+		setsFile, resets := false, false
+		var at ast.Node
+		ast.Inspect(d.Decl.Body, func(n ast.Node) bool {
+			if as, ok := n.(*ast.AssignStmt); ok {
+				for i, l := range as.Lhs {
+					switch core.ExprStr(l) {
+					case recv + ".file":
+						setsFile, at = true, as
+					case recv + ".prepared":
+						if i < len(as.Rhs) && core.ExprStr(as.Rhs[i]) == "false" {
+							resets = true
+						}
+					}
+				}
+			}
+			return true
+		})
+		if !setsFile {
+			continue
+		}
+		fn := core.DeclName(d.Pkg, d.Decl)
+		_, ptr := d.Decl.Recv.List[0].Type.(*ast.StarExpr)
+		c.Check(resets || !ptr, R, fn+":file", c.P.Pos(at.Pos()), fn+" replaces the file and resets the prepared flag", "the file is replaced while the cached "+strings.Join(names, ", ")+" of the previous file stay valid (prepared is not reset)")
+	}
 }
